@@ -55,7 +55,12 @@ package announce
 //@   ensures recvOK(r)
 //@   shutdown done
 //@   ghost ok := false
+//@   ghost filtered := zero("[]multiaddr.Multiaddr")
 //@   at call announceCheck#1: after ghost ok := result == nil
+//@   at call FilterPublic#1: assert arg0 == old(amsg.Addrs)
+//@   at call FilterPublic#1: after ghost filtered := result
+//@   ensures-local count("call:FilterPublic") == 1 <==> (ok && r.filterIPs)
+//@   ensures-local count("send:outChan") == 1 && r.filterIPs ==> evarg("send:outChan", 3) == sliceArr(filtered) && evarg("send:outChan", 5) == len(filtered)
 //@   at call announceCheck#1: assert arg1.Cid == amsg.Cid && arg1.PeerID == amsg.PeerID
 //@   at call republish#1: assert arg2.Cid == old(amsg.Cid) && arg2.PeerID == old(amsg.PeerID)
 //@   ensures-local count("send:outChan") <= 1
